@@ -430,6 +430,9 @@ def c11(res, rng, tier, replay=None):
         for mid in ['{(?-i)q1}', '<(?-i)rc:2>', '(?-i)q', '{(?-i)a,(?-i)a}', '{x}', '<y:1>']:
             exprs.append(pre + mid)
             exprs.append(pre + mid + '/z')
+    # classes with an inverted range match nothing: they have no invariant text
+    for e_ in ['[z-a]', 'x[z-a]', 'a/[9-0].txt', '{[b-a],[b-a]}', '<x[b-a]:2>', '[b-a]/y', 'p[c-a]q', '[a-a][b-a]', '[!z-a]']:
+        exprs.append(e_)
     # branches whose texts are related without being equal: one is the other cut at a component boundary, a fragment more,
     # the same fragments with another kind (`/` as text of a class) - equality of texts must compare every fragment
     for a_, b_ in [('a', 'a/b'), ('a/b', 'a'), ('a', 'a/b/c'), ('a/', 'a/b'), ('a/b', 'a/b/'), ('x/y', 'x/y/z'), ('a', 'a/'), ('a/b', 'a/c'), ('ab', 'a/b'),
@@ -613,7 +616,7 @@ def c09(res, rng, tier, replay=None):
                 'impl vs model; oracle: Always => every canonical descendant of a matched canonical path is matched')
     exprs = gen_exprs(rng, n // 2)
     g = G.ExprGen(rng, wild=0.03, maxdepth=2)
-    tails = ['<*/%B>*', '<*/%B>', '<*/%B>**', '<**/%B>*', '<*/*/%B>*', '<</*%B>%B>', '**/<*%B>', '<*%B>/**', '/**', '**', '**/*', '**/{%s}', '**/<%s:1,2>', '/**/<%s:>', '{%s,**/%s}', '<*/>', '**/*/', '{a/**,%s/**}', '<%s/**:1,>',
+    tails = ['<<*/*/%B>%B>*', '<<*/*/%B>>*', '<<*/%B>%B>*', '<<*/*/*/%B>:1,>*', '<*/%B>*', '<*/%B>', '<*/%B>**', '<**/%B>*', '<*/*/%B>*', '<</*%B>%B>', '**/<*%B>', '<*%B>/**', '/**', '**', '**/*', '**/{%s}', '**/<%s:1,2>', '/**/<%s:>', '{%s,**/%s}', '<*/>', '**/*/', '{a/**,%s/**}', '<%s/**:1,>',
              '**/%s/**', '{**/%s,b/**}', '<%s/:1,>**', '**/{%s,%s/**}', '{%s/**,**}']
     while len(exprs) < n:
         t = rng.choice(tails)
@@ -915,6 +918,24 @@ def c05(res, rng, tier, replay=None):
             for k in ('depth', 'text', 'root', 'exh'):
                 if (fa.get(k) == '!') != (fb.get(k) == '!'):
                     res.tie_fail('C05 a query on a combinator panics in only one of implementation and model', {'any': f, 'field': k})
+    # combinators of combinators, with empty groups at every position (any of nothing, any of any of nothing, ...)
+    plain = [e for e in pool if not c05_class(e)][:60] + ['a', 'b/**', '']
+    ncmds, nfam = [], []
+    for _ in range(sizes(tier, 300, 3000)):
+        groups = [rng.sample(plain, rng.choice([0, 0, 1, 2])) for _ in range(rng.choice([1, 2, 3]))]
+        nfam.append(groups)
+        toks = []
+        for gi, g_ in enumerate(groups):
+            toks += (['-'] if gi else []) + [hx(e) for e in g_]
+        ncmds.append(' '.join(['anyn', hx(rng.choice(['', 'a', 'b/x']))] + toks))
+    for groups, a, b in zip(nfam, W.run_impl(ncmds), W.run_model(ncmds)):
+        res.evaluations += 1
+        res.nontrivial.add(str(groups))
+        ha, hb = W.fields(a)[0], W.fields(b)[0]
+        if ha in ('panic', 'crashed', 'missing') or '=!' in a:
+            res.oracle_fail('panic while building or querying a combinator of combinators', {'groups': groups, 'impl': a[:300]})
+        elif hb not in ('model-timeout', 'model-stack-overflow') and a != b:
+            res.tie_fail('C05 a combinator of combinators differs from the model', {'groups': groups, 'impl': a[:300], 'model': b[:300]})
     for cls, kf in kfs.items():
         o = W.run_impl(['glob ' + hx(kf['witness']['glob'])])[0]
         known_line(res, kf, o.startswith(('panic', 'crashed')) or '=!' in o, 'glob=%r outcome=%s' % (kf['witness']['glob'][:60], o[:30]))
@@ -1387,6 +1408,11 @@ def c08(res, rng, tier, replay=None):
             continue
         prefix = W.unhx(f['prefix'])
         post = None if f.get('post') == '-' else W.unhx(f['post'])
+        owned_view = (f.get('oprefix'), f.get('opost'), f.get('optree'), f.get('opre'))
+        if owned_view != (f.get('prefix'), f.get('post'), f.get('ptree'), f.get('pre')):
+            res.oracle_fail('partitioning the owned glob gives another prefix / postfix than partitioning the borrowed one',
+                            {'glob': it.e, 'borrowed': [f.get('prefix'), W.unhx(f['post']) if f.get('post', '-') != '-' else None],
+                             'owned': [f.get('oprefix'), W.unhx(f['opost']) if f.get('opost', '-') not in ('-', None, '!') else f.get('opost')]})
         res.count('post:none' if post is None else 'post:some')
         res.count('prefix:empty' if prefix == '' else 'prefix:some')
         if post is not None:
@@ -1560,6 +1586,18 @@ def c17(res, rng, tier, replay=None):
             ptoks = [c for c in top_tokens(G.read_tree(f['ptree'])) if c['k'] in ('C', 'O', 'Z', 'T', 'A', 'R')]
         except Exception:
             ptoks = []
+        ocs, opost = f.get('opcaps', ''), f.get('opost', '-')
+        if ocs and ocs != '!' and opost not in ('-', '!', None):
+            ob = W.unhx(opost).encode('utf-8')
+            for c in ocs.split(';'):
+                s0, n0 = (int(v) for v in c.split(':')[1].split(','))
+                if not span_ok(ob, s0, n0):
+                    res.oracle_fail('a capture span of the postfix of the owned glob does not index that postfix expression safely',
+                                    {'glob': it.e, 'postfix': W.unhx(opost), 'span': [s0, n0], 'bytes': len(ob)})
+                    break
+            if (ocs, opost) != (f.get('pcaps'), f.get('post')):
+                res.oracle_fail('the capture spans of the postfix differ between the owned and the borrowed glob',
+                                {'glob': it.e, 'borrowed': [W.unhx(f['post']), f.get('pcaps')], 'owned': [W.unhx(opost), ocs]})
         pcs = f.get('pcaps', '')
         if pcs and pcs != '!':
             res.evaluations += 1
@@ -1633,6 +1671,9 @@ def c18(res, rng, tier, replay=None):
         if s not in seen:
             seen.add(s)
             strs.append(s)
+    # texts just below the invariant size limit (65536 bytes): plain, with components and meta-characters, multi-byte
+    for s_ in ['a' * 65535, 'a' * 65534, 'd[1]/' * 13107, '愛' * 21845, 'x/' * 32767 + 'y', '*' * 65535]:
+        strs.append(s_)
     ecmds = ['esc ' + hx(s) for s in strs]
     ie, me = W.run_impl(ecmds), W.run_model(ecmds)
     gcmds, keep = [], []
@@ -1657,7 +1698,9 @@ def c18(res, rng, tier, replay=None):
     for i, (s, esc, muts) in enumerate(keep):
         ih, if_ = W.fields(outs[2 * i])
         mh, mf_ = W.fields(mouts[i])
-        if ih != mh or any(if_.get(k) != mf_.get(k) for k in ('tree', 're', 'text')):
+        if mh in ('model-timeout', 'model-stack-overflow', 'model-out-of-fuel'):
+            res.count('model gave no verdict within its budget: ' + mh)
+        elif ih != mh or any(if_.get(k) != mf_.get(k) for k in ('tree', 're', 'text')):
             res.tie_fail('C18 the glob built from the escaped string differs from the model', {'text': s, 'escaped': esc, 'impl': outs[2 * i][:300], 'model': mouts[i][:300]})
     for i, (s, esc, muts) in enumerate(keep):
         g_, m_ = outs[2 * i], outs[2 * i + 1]
